@@ -183,9 +183,26 @@ class MidiMapperRT
                 {
                     if(has(x) || size > 31)
                         return;
-                    vals[pos_w] = x;
-                    size++;
-                    pos_w = (pos_w+1)%32;
+                    //(remove() leaves holes: take the first free cell)
+                    for(int i=0; i<32; ++i) {
+                        const int cell = (pos_w+i)%32;
+                        if(vals[cell] == -1) {
+                            vals[cell] = x;
+                            size++;
+                            pos_w = (cell+1)%32;
+                            return;
+                        }
+                    }
+                }
+                //forget one id, wherever it stands
+                void remove(int x)
+                {
+                    for(int i=0; i<32; ++i)
+                        if(vals[i] == x) {
+                            vals[i] = -1;
+                            size--;
+                            return;
+                        }
                 }
                 void pop(void)
                 {
